@@ -39,6 +39,9 @@ def run_scn(scn, on_step):
                     c.timestamp = c.timestamp + _td(microseconds=sub[k % len(sub)])
         if for_append and enc == "dict":
             return [{"open": c.open, "high": c.high, "low": c.low, "close": c.close, "volume": c.volume, "timestamp": c.timestamp} for c in cs]
+        if for_append and enc == "dict_iso":   # the stamp as an ISO-8601 string without offset: still a naive wall-clock time
+            return [{"open": c.open, "high": c.high, "low": c.low, "close": c.close, "volume": c.volume,
+                     "timestamp": (c.timestamp.isoformat() if c.timestamp is not None else None)} for c in cs]
         if for_append and enc == "list":
             return [[c.timestamp, c.open, c.high, c.low, c.close, c.volume] for c in cs]
         return cs
